@@ -2,7 +2,8 @@
    witness that the int32 guard of rc_counts_agree_positive is necessary. *)
 From Coq Require Import List NArith ZArith Bool Sorted Lia.
 From Storage Require Import Base.Bytes Links.StrOrder Links.LinkModel Links.LinkModelProofs Links.SetLinksMerge
-  Links.SetLinksMergeProofs Links.RefCount Links.RefCountProofs Links.LinkMachine Links.LinkMachineProofs.
+  Links.SetLinksMergeProofs Links.RefCount Links.RefCountProofs Links.LinkMachine Links.LinkMachineProofs
+  Links.HierMachine Links.HierProofs.
 Import ListNotations.
 Local Open Scope Z_scope.
 
@@ -118,3 +119,79 @@ Proof.
   split; [repeat constructor; simpl; tauto|]. split; [repeat constructor; simpl; lia|].
   split; [vm_compute; intros H; apply H; reflexivity | vm_compute; reflexivity].
 Qed.
+
+(* ==== store hierarchies (Links/HierMachine.v) ============================================================ *)
+
+(* family A: root store and a plain child (level 1); family B: root store and an Extended child (level 1).
+   Pair 0: A's child store - B's root store; pair 1: A's root store - B's extended child store; pair 2:
+   the two root stores. *)
+Definition T1 : topo := mkTopo (fun sd => if sd then [false] else [true]) [(1, 0); (0, 1); (0, 0)]%nat.
+
+(* "a" of A is created through the plain child, "x" through the root store; "a" of B through the extended
+   child, "b" through the root store; links and counts in all three pairs; then "a" of A is deleted
+   through the ROOT store and "a" of B through the root store as well *)
+Definition hh1 : hhistory :=
+  [ [HCreate A 1 ida; HCreate A 0 idx; HCreate B 1 k1; HCreate B 0 k4];
+    [HLink 0 (OAddLinks A ida [k1; k4]); HLink 0 (OIncr B k1 ida); HLink 2 (OSetLinks B k1 [idx; ida]);
+     HLink 1 (OSetCount A idx k1 3); HLink 1 (OAddLink B k1 ida)];
+    [HLink 1 (OAddLinks A ida [k4])];              (* fails: the extended child store has no data for "b" *)
+    [HDelete A 0 ida];
+    [HDelete B 0 k1] ]%nat.
+
+Lemma hh1_in : hhist_in U0 hh1.
+Proof. repeat constructor; simpl; tauto. Qed.
+Lemma hh1_counts : hhist_counts_ok hh1.
+Proof. repeat constructor; simpl; lia. Qed.
+Lemma hh1_bound : hhist_bound 0 hh1 <= max_int32.
+Proof. vm_compute. discriminate. Qed.
+
+Definition hstate_after (n : nat) : hstate := run_hhist T1 U0 (firstn n hh1) hinit.
+
+(* hier_links_symmetric_counts_agree / hier_absent_entity_has_no_links: the guards hold, the states are
+   not trivial; the delete through the root store cleaned the pair registered on the CHILD store *)
+Example hier_example :
+  hhist_in U0 hh1 /\ hhist_counts_ok hh1 /\ hhist_bound 0 hh1 <= max_int32 /\
+  (* after the links *)
+  get_links U0 (view T1 0 (hstate_after 2)) A ida = [k1; k4] /\ get_links U0 (view T1 0 (hstate_after 2)) B k1 = [ida] /\
+  get_links U0 (view T1 2 (hstate_after 2)) B k1 = [ida; idx] /\ get_links U0 (view T1 1 (hstate_after 2)) B k1 = [ida] /\
+  get_link_counts (view T1 0 (hstate_after 2)) A ida k1 = (Some 1, Some 1) /\
+  get_link_counts (view T1 1 (hstate_after 2)) B k1 idx = (Some 3, Some 3) /\
+  (* the third transaction failed and changed nothing *)
+  fst (run_htx T1 U0 (nth 2 hh1 []) (hstate_after 2)) = false /\
+  (* "a" of A deleted through the root store: gone from every level and from every pair *)
+  hp (hstate_after 4) A 0%nat ida = false /\ hp (hstate_after 4) A 1%nat ida = false /\
+  get_links U0 (view T1 0 (hstate_after 4)) B k1 = [] /\ get_links U0 (view T1 0 (hstate_after 4)) B k4 = [] /\
+  get_links U0 (view T1 1 (hstate_after 4)) B k1 = [] /\ get_links U0 (view T1 2 (hstate_after 4)) B k1 = [idx] /\
+  get_link_counts (view T1 0 (hstate_after 4)) B k1 ida = (None, None) /\
+  (* "a" of B (data in the extended child) deleted through the root store *)
+  hp (hstate_after 5) B 0%nat k1 = false /\ hp (hstate_after 5) B 1%nat k1 = false /\
+  get_links U0 (view T1 2 (hstate_after 5)) A idx = [] /\
+  get_link_counts (view T1 1 (hstate_after 5)) A idx k1 = (None, None).
+Proof. split; [exact hh1_in|]. split; [exact hh1_counts|]. split; [exact hh1_bound|]. vm_compute. repeat split. Qed.
+
+(* hier_delete_succeeds / hier_delete_refused_when_ext_blocked: both cases occur.  "b" of B was created
+   through the ROOT store and has no data in the extended child store, which owns pair 1: its delete is
+   refused, through whichever store; without pair 1 (T1') it passes. *)
+Definition T1' : topo := mkTopo (fun sd => if sd then [false] else [true]) [(1, 0); (0, 0)]%nat.
+Example hier_ext_blocked_example :
+  let h := hstate_after 2 in
+  ext_blocked T1 h B k4 = true /\ ext_blocked T1 h B k1 = false /\ ext_blocked T1' h B k4 = false /\
+  hdelete T1 U0 B 0 k4 h = HFailed /\ hdelete T1 U0 B 1 k4 h = HFailed /\
+  match hdelete T1 U0 B 1 k1 h with HDone h' => hp h' B 0%nat k1 = false | _ => False end /\
+  match hdelete T1' U0 B 1 k4 h with HDone h' => hp h' B 0%nat k4 = false | _ => False end.
+Proof. vm_compute. repeat split. Qed.
+
+(* The clean-up of every store level is necessary: a delete that runs cleanupLinks for the root store
+   only (and not for the child stores holding the entity) leaves the peer linked to, and counting, an
+   entity that no longer exists, while the pair of the root stores is clean. *)
+Definition hdelete_root_only (T : topo) (U : univ) (sd : side) (x : id) (h : hstate) : hres :=
+  if negb (hp h sd 0%nat x) then HFailed
+  else hbind (cleanup_links T U sd 0 x h) (fun h2 => HDone (hdrop sd x h2)).
+
+Example root_only_cleanup_refuted :
+  match hdelete_root_only T1 U0 A ida (hstate_after 2) with
+  | HDone h' => hp h' A 0%nat ida = false /\ hl h' 0%nat B k1 ida = true /\ hr h' 0%nat B k1 ida = Some 1 /\
+                get_links U0 (view T1 2 h') B k1 = [idx]
+  | _ => False
+  end.
+Proof. vm_compute. repeat split. Qed.
